@@ -282,6 +282,16 @@ def r5_close(ctx):
     dr = ctx.body(CH + "::drop_receiver", "C19.R5")
     w = kinds.must_follow(prog, dr, Site(0, -1), {CH + "::close"} | CLOSE)
     ctx.ob("C19.R5", "drop_receiver-closes", w is None, "Channel::drop_receiver closes the send side on every path", loc=dr.loc())
+    # tokio: dropping the Receiver also drops every value still buffered (whether or not close() was called before); a buffered request
+    # that carries a oneshot::Sender would otherwise keep its client waiting for as long as any Sender clone lives
+    import re
+    from rules.c18 import _calls_on_field
+    takes = [s for s, t in dr.calls() if any(c in ("core::mem::take", "core::mem::replace") or c.endswith(("::clear", "::drain")) for c in dr.callees_of_call(t, passed=False))
+             and ("field:" + T + "mpsc::ChannelState.messages") in Slicer(dr, alias_defs=True).slice_operand(t["args"][0])[0]]
+    ts = set(takes)
+    w2 = dr.path_exists(None, dr.is_return, lambda x: x in ts)
+    ctx.ob("C19.R5", "drop_receiver-discards-buffered", bool(takes) and w2 is None,
+           "Channel::drop_receiver takes the buffered messages out of the channel (and drops them) on every path", loc=dr.loc())
 
 
 def r6_delegation(ctx):
